@@ -51,3 +51,15 @@ package tree
 //@   loop 0 invariant [idx] 0 <= i && i <= len(subTreeReplicas)
 //@   loop 0 invariant [fresh] fresh(subTreeReplicas) && preserved([]hotstuff.ID)
 //@   modifies alloc
+
+// The replica's own children and its peers (the children of its parent, itself included) are
+// the same position ranges, read off the replica's own position.
+//@ func (Tree).ReplicaChildren property C17
+//@   requires tbounds(t)
+//@   requires tdistinct(t)
+//@   ensures [absent] !inTree(t, t.id) ==> len(result) == 0
+//@   ensures [exact] forall p int :: isPos(t, t.id, p) ==> len(result) == max(0, min(len(t.treePosToID), p * t.branchFactor + 1 + t.branchFactor) - (p * t.branchFactor + 1)) && (forall k int :: 0 <= k && k < len(result) ==> result[k] == t.treePosToID[p * t.branchFactor + 1 + k])
+//@ func (Tree).PeersOf property C17
+//@   requires twf(t) && inTree(t, t.id)
+//@   ensures [root-has-no-peers] isPos(t, t.id, 0) ==> len(result) == 0
+//@   ensures [children-of-the-parent] forall p int :: p >= 1 && isPos(t, t.id, p) ==> len(result) == max(0, min(len(t.treePosToID), (p - 1) / t.branchFactor * t.branchFactor + 1 + t.branchFactor) - ((p - 1) / t.branchFactor * t.branchFactor + 1)) && (forall k int :: 0 <= k && k < len(result) ==> result[k] == t.treePosToID[(p - 1) / t.branchFactor * t.branchFactor + 1 + k])
